@@ -6,7 +6,10 @@ use std::sync::atomic::{AtomicU64, Ordering};
 use std::sync::Mutex;
 use std::time::Instant;
 
-pub const VERIF_DIR: &str = "/verif";
+/// root of the verification tree (evidence/, replays/, known_findings.json, golden/): $VERIF_DIR or /verif
+pub fn verif_dir() -> String {
+    std::env::var("VERIF_DIR").unwrap_or_else(|_| "/verif".to_string())
+}
 
 #[derive(Clone, Debug, Serialize, Deserialize)]
 pub struct Violation {
@@ -114,7 +117,7 @@ impl Finding {
 }
 
 pub fn load_findings() -> Vec<Finding> {
-    let path = format!("{VERIF_DIR}/known_findings.json");
+    let path = format!("{}/", verif_dir()).as_str().to_owned() + &format!("known_findings.json");
     match std::fs::read_to_string(&path) {
         Ok(t) => {
             let v: Value = serde_json::from_str(&t).unwrap_or(json!({}));
@@ -270,13 +273,13 @@ impl Ctx {
             println!("KNOWN-FINDING: property={} {} [{}; matched {} case(s) this run]", self.property, what, id, n);
         }
         let mut nviol = 0;
-        let _ = std::fs::create_dir_all(format!("{VERIF_DIR}/replays"));
+        let _ = std::fs::create_dir_all(format!("{}/", verif_dir()).as_str().to_owned() + &format!("replays"));
         for (key, g) in &groups {
             nviol += 1;
             // the smallest case (by serialized length) is the representative
             let rep = g.iter().min_by_key(|v| v.case.to_string().len()).unwrap();
             let h = crate::rng::hstr(key) & 0xffff_ffff;
-            let path = format!("{VERIF_DIR}/replays/{}-{:08x}.json", self.property, h);
+            let path = format!("{}/", verif_dir()).as_str().to_owned() + &format!("replays/{}-{:08x}.json", self.property, h);
             let body = json!({
                 "property": rep.property, "family": rep.family, "float": rep.float,
                 "symptom": rep.symptom, "trigger": rep.trigger, "what": rep.what,
@@ -308,7 +311,7 @@ impl Ctx {
         }
         // the checked-profile pass (debug assertions + overflow checks on) runs first and leaves its summary
         if std::env::var("VERIF_PROFILE").map(|v| v != "checked").unwrap_or(true) {
-            let cp = format!("{VERIF_DIR}/evidence/.{}.checked.json", self.property);
+            let cp = format!("{}/", verif_dir()).as_str().to_owned() + &format!("evidence/.{}.checked.json", self.property);
             if let Ok(t) = std::fs::read_to_string(&cp) {
                 if let Ok(v) = serde_json::from_str::<Value>(&t) {
                     cov.insert("checked_profile_pass".into(), json!({
@@ -330,12 +333,12 @@ impl Ctx {
             "prng": crate::rng::Prng::from_env().name(),
             "infra_errors": infra,
         });
-        let _ = std::fs::create_dir_all(format!("{VERIF_DIR}/evidence"));
+        let _ = std::fs::create_dir_all(format!("{}/", verif_dir()).as_str().to_owned() + &format!("evidence"));
         let checked = std::env::var("VERIF_PROFILE").map(|v| v == "checked").unwrap_or(false);
         let epath = if checked {
-            format!("{VERIF_DIR}/evidence/.{}.checked.json", self.property)
+            format!("{}/", verif_dir()).as_str().to_owned() + &format!("evidence/.{}.checked.json", self.property)
         } else {
-            format!("{VERIF_DIR}/evidence/{}.json", self.property)
+            format!("{}/", verif_dir()).as_str().to_owned() + &format!("evidence/{}.json", self.property)
         };
         if let Err(e) = std::fs::write(&epath, serde_json::to_string_pretty(&ev).unwrap()) {
             println!("INFRA: cannot write {epath}: {e}");
